@@ -6,7 +6,7 @@
 """
 import numpy as np
 from pmv import common, gen
-from pmv.oracles import report, georef
+from pmv.oracles import report, georef, pulseref
 
 ID   = 'C12'
 RULE = ( 'random wire graphs on a lattice (1..7 wires, 1..5 segments each, chains, stars, loops, several '
@@ -26,7 +26,7 @@ ASSUMPTIONS = ['clusters are built with diameter < tol/2 or gaps >= 1.75 tol so 
 
 def plan (tier, seed):
     n = 2400 if tier == 'quick' else 60000
-    return [dict (i = i, seed = seed) for i in range (n)]
+    return [dict (i = i, seed = seed) for i in range (n)] + [dict (kind = 'curves', i = i, seed = seed) for i in range (n // 8)]
 # end def plan
 
 def unit (rng):
@@ -290,7 +290,156 @@ def expected (spec, m = None):
     return pts, sizes, n_gnd, n_int
 # end def expected
 
+def make_curves (c):
+    """ closed figures made of few objects, at least one of them curved: an arc and its chord, a circle of two or
+        three arcs, with or without a stub on a junction; any order of definition, explicit tags with gaps """
+    rng  = np.random.default_rng ([c ['seed'], 127, c ['i']])
+    R    = float (10 ** rng.uniform (-0.5, 1))
+    rw   = 1e-4 * R
+    kind = str (rng.choice (['chord', 'chord', 'two', 'three', 'open']))
+    geo  = []
+    def P (a):
+        a = np.radians (a)
+        return [R * float (np.cos (a)), 0.0, R * float (np.sin (a))]
+    a0 = float (rng.choice ([0.0, 30.0, -90.0, float (np.round (rng.uniform (-180, 180)))]))
+    if kind in ('chord', 'open'):
+        sw = float (rng.choice ([180.0, 90.0, 270.0, float (np.round (rng.uniform (40, 320)))]))
+        na = int (rng.integers (4, 20))
+        a1, a2 = (a0, a0 + sw) if rng.random () < 0.6 else (a0 + sw, a0)
+        geo.append (dict (k = 'a', n = na, radius = R, a1 = a1, a2 = a2, r = rw, tag = None))
+        chord = 2 * R * np.sin (np.radians (sw) / 2)
+        seg   = 2 * R * np.sin (np.radians (sw) / 2 / na)
+        nw    = max (1, int (round (chord / seg)))
+        e1, e2 = (P (a0), P (a0 + sw)) if rng.random () < 0.5 else (P (a0 + sw), P (a0))
+        if kind == 'open':
+            # the wire reaches only one end of the arc
+            e2 = [e2 [0] * 0.5 + e1 [0] * 0.5, 0.3 * R, e2 [2] * 0.5 + e1 [2] * 0.5]
+            nw = max (1, nw // 2)
+        geo.append (gen.wire (nw, e1, e2, rw))
+    else:
+        k   = 2 if kind == 'two' else 3
+        cut = sorted (float (x) for x in np.round (rng.uniform (40, 320, size = k - 1)))
+        if k == 3 and cut [1] - cut [0] < 30:
+            cut [1] = min (cut [0] + 60, 340.0)
+        cuts = [0.0] + cut + [360.0]
+        for u, v in zip (cuts [:-1], cuts [1:]):
+            na = max (3, int (round ((v - u) / 15.0)))
+            a1, a2 = (a0 + u, a0 + v) if rng.random () < 0.6 else (a0 + v, a0 + u)
+            geo.append (dict (k = 'a', n = na, radius = R, a1 = a1, a2 = a2, r = rw, tag = None))
+    if rng.random () < 0.4:
+        # a stub on the first junction, pointing away from the plane of the figure
+        q  = P (a0)
+        nl = int (rng.integers (1, 5))
+        st = gen.wire (nl, q, [q [0], q [1] + nl * 2 * R * np.sin (np.radians (7.5)), q [2]], rw)
+        if rng.random () < 0.5:
+            st ['p1'], st ['p2'] = st ['p2'], st ['p1']
+        geo.append (st)
+    rng.shuffle (geo)
+    mode = str (rng.choice (['auto', 'seq', 'gaps', 'gaps']))
+    if mode == 'seq':
+        for i, g in enumerate (geo):
+            g ['tag'] = i + 1
+    elif mode == 'gaps':
+        tags = sorted (int (x) for x in rng.choice (np.arange (1, 12), size = len (geo), replace = False))
+        if tags == list (range (1, len (geo) + 1)):
+            tags = [t + 1 for t in tags]
+        tags = [int (t) for t in rng.permutation (tags)]
+        for g, t in zip (geo, tags):
+            g ['tag'] = t
+    media = [[0, 0, 0]] if rng.random () < 0.25 else None
+    tr = []
+    if media:
+        tr = [['translate', 1.0, [0.0, 0.0, 2.5 * R], None]]
+    return dict (f = 7.0, geo = geo, tr = tr, sc = [], media = media, src = [], loads = [], fam = 'curves-' + kind, mode = mode)
+# end def make_curves
+
+def check_curves (c):
+    """ count, positions, numbering and joints from the topology, for structures given as any mix of objects (nodes of
+        the objects from the documented formulas) """
+    spec = c if 'geo' in c else make_curves (c)
+    m    = gen.build (spec)
+    objs = pulseref.object_nodes (spec, m)
+    L    = min (np.linalg.norm (b - a) for o in objs.values () for a, b in zip (o ['nodes'][:-1], o ['nodes'][1:]))
+    tol  = 1e-3 * L
+    gnd  = m.media is not None
+    ends, n_gnd, pts = [], 0, []
+    for t, o in objs.items ():
+        pts += list (o ['nodes'][1:-1])
+        for e, k in ((0, 0), (1, -1)):
+            p = np.asarray (o ['nodes'][k], float)
+            if gnd and 0.9 * tol <= abs (p [2]) <= 1.1 * tol:
+                return dict (status = 'discard', reason = 'end within 10 % of the ground distance')
+            if gnd and abs (p [2]) < tol:
+                n_gnd += 1
+                q = p.copy (); q [2] = 0.0
+                pts.append (q)
+            else:
+                ends.append ((t, e, p))
+    cl = list (range (len (ends)))
+    for i in range (len (ends)):
+        for j in range (i):
+            d = np.linalg.norm (ends [i][2] - ends [j][2])
+            if 0.9 * tol <= d <= 1.1 * tol:
+                return dict (status = 'discard', reason = 'two ends within 10 % of the matching tolerance')
+            if d <= tol and cl [i] != cl [j]:
+                a, b = cl [i], cl [j]
+                cl = [b if x == a else x for x in cl]
+    sizes = []
+    for k in sorted (set (cl)):
+        mem = [ends [i][2] for i in range (len (ends)) if cl [i] == k]
+        if max (np.linalg.norm (x - y) for x in mem for y in mem) > tol:
+            return dict (status = 'discard', reason = 'chain of near ends')
+        sizes.append (len (mem))
+        pts += [np.mean (mem, axis = 0)] * (len (mem) - 1)
+    viol, mon = [], {}
+    def bad (monitor, key, msg):
+        viol.append (dict (monitor = monitor, key = key, msg = msg))
+    mon ['count'] = 1
+    if len (m.pulses) != len (pts):
+        bad ('count', 'pulse-count', '%d pulses, topology gives %d (objects %s, grounded ends %d, junction sizes %s)'
+             % (len (m.pulses), len (pts), [(o ['g']['k'], o ['g']['n']) for o in objs.values ()], n_gnd, sorted (sizes)))
+    mon ['positions'] = 1
+    have = [np.asarray (p.point, float) for p in m.pulses]
+    rest = list (range (len (have)))
+    miss = 0
+    for q in pts:
+        j = min (rest, key = lambda j: np.linalg.norm (have [j] - q)) if rest else None
+        if j is not None and np.linalg.norm (have [j] - q) <= 1.1 * tol + 1e-9 * np.linalg.norm (q):
+            rest.remove (j)
+        else:
+            miss += 1
+    if miss or (rest and len (m.pulses) == len (pts)):
+        bad ('positions', 'pulse-position', '%d expected pulse positions have no pulse, %d pulses at unexpected positions' % (miss, len (rest)))
+    mon ['numbering'] = 1
+    if [p.idx for p in m.pulses] != list (range (len (m.pulses))):
+        bad ('numbering', 'numbering-model', 'pulse indices of the model are not 0..N-1 in order')
+    rep = report.parse (common.guarded (m.wires_as_mininec, 'wires_as_mininec'))
+    nos = [int (r ['no']) for b in rep ['geometry'] for r in b ['rows']]
+    if nos != list (range (1, len (m.pulses) + 1)):
+        bad ('numbering', 'numbering-report', 'PULSE NO. column %s is not 1..%d' % (nos [:12], len (m.pulses)))
+    if [int (b ['tag']) for b in rep ['geometry']] != sorted (objs):
+        bad ('numbering', 'block-order', 'geometry blocks %s, objects sorted by tag %s' % ([b ['tag'] for b in rep ['geometry']], sorted (objs)))
+    mon ['joint'] = len (m.pulses)
+    rows = {int (r ['no']): r for b in rep ['geometry'] for r in b ['rows']}
+    for p in m.pulses:
+        P = np.asarray (p.point, float)
+        for sg in p.segs:
+            d = min (np.linalg.norm (P - np.asarray (sg.p1, float)), np.linalg.norm (P - np.asarray (sg.p2, float)))
+            if d > 1.05 * tol:
+                bad ('joint', 'pulse-not-on-joint', 'pulse %d at %s is %.3g tolerances from the nearest end of a segment it holds (object %s)' % (p.idx + 1, P, d / tol, sg.geobj.tag))
+        r = rows.get (p.idx + 1)
+        if r is not None:
+            for col, sg in (('e1', p.segs [0]), ('e2', p.segs [1])):
+                if abs (int (r [col])) not in (0, int (sg.geobj.tag)):
+                    bad ('joint', 'end-column', 'pulse %d: column %s = %s, segment belongs to object %s' % (p.idx + 1, col.upper (), r [col], sg.geobj.tag))
+    sig = '|'.join ([spec.get ('fam', ''), spec.get ('mode', ''), 'gnd' if gnd else 'free', str (sorted (sizes)), str (len (objs))])
+    return dict ( status = 'violation' if viol else 'held', sig = sig, nontrivial = True, monitors = mon, violations = viol [:6]
+                , info = dict (N = len (m.pulses), sizes = sorted (sizes), n_gnd = n_gnd))
+# end def check_curves
+
 def check (spec0):
+    if spec0.get ('kind') == 'curves' or str (spec0.get ('fam', '')).startswith ('curves-'):
+        return check_curves (spec0)
     spec = spec0 if 'geo' in spec0 else make (spec0)
     m    = gen.build (spec)
     if spec.get ('tol_from_model') or any (g.get ('taper') for g in spec ['geo']):
